@@ -143,7 +143,7 @@ def gen_table(r, card, pcards, **kw):
 # --------------------------------------------------------------------------------------------------
 def gen_bn(streams, max_n=6, min_n=1, max_card=4, max_parents=3, max_joint=4096, label_mode=None,
            state_modes=None, connected=False, allow_card1=True, keyword_rate=0.0, tiny_rate=None,
-           max_table=None, force_str_labels=False):
+           max_table=None, force_str_labels=False, positive=False):
     r = streams.s("world")
     n = r.randint(min_n, max_n)
     density = r.choice([0.15, 0.3, 0.5, 0.8])
@@ -152,6 +152,8 @@ def gen_bn(streams, max_n=6, min_n=1, max_card=4, max_parents=3, max_joint=4096,
     onehot_rate = r.choice([0.0, 0.0, 0.1, 0.5])
     if tiny_rate is None:
         tiny_rate = 0.0
+    if positive:
+        zero_rate = onehot_rate = 0.0
     motif = weighted(r, [("random", 6), ("chain", 1), ("collider", 1), ("isolated", 1), ("two_parts", 1), ("star", 2)])
     dup_rate = r.choice([0.0, 0.0, 0.0, 0.6, 0.9])
     same_card = dup_rate > 0 and r.random() < 0.6
